@@ -1,8 +1,418 @@
-//! Further tables (factory, ints, pnmsg): see pure.rs for the conventions.
-pub fn row_from_inputs(name: &str, _a: &[i64]) -> Vec<i64> {
-    panic!("unknown table {name}")
+//! Tables `factory` (C06) and `pnmsg` (C09); conventions as in pure.rs.
+use crate::alloc::guarded;
+use crate::exec::build_pn;
+use crate::pure::*;
+use crate::sut::{cc14_report, pn_report};
+use helgoboss_midi::*;
+use std::convert::TryFrom;
+
+fn ty(b: i64) -> ShortMessageType {
+    ShortMessageType::try_from(b as u8).expect("type byte")
 }
 
-pub fn table(name: &str, _dir: &str, _tier: &str, _seed: u64, _per: usize) -> (usize, u64) {
-    panic!("unknown table {name}")
+fn build<F: ShortMessageFactory>(ctor: i64, a: &[i64]) -> F {
+    let ch = || Channel::new(a[0] as u8);
+    match ctor {
+        0 => F::note_on(ch(), KeyNumber::new(a[1] as u8), U7::new(a[2] as u8)),
+        1 => F::note_off(ch(), KeyNumber::new(a[1] as u8), U7::new(a[2] as u8)),
+        2 => F::control_change(ch(), ControllerNumber::new(a[1] as u8), U7::new(a[2] as u8)),
+        3 => F::program_change(ch(), U7::new(a[1] as u8)),
+        4 => F::polyphonic_key_pressure(ch(), KeyNumber::new(a[1] as u8), U7::new(a[2] as u8)),
+        5 => F::channel_pressure(ch(), U7::new(a[1] as u8)),
+        6 => F::pitch_bend_change(ch(), U14::new(a[1] as u16)),
+        7 => F::system_exclusive_start(),
+        8 => F::time_code_quarter_frame(frame_of([a[0], a[1], a[2]])),
+        9 => F::song_position_pointer(U14::new(a[0] as u16)),
+        10 => F::song_select(U7::new(a[0] as u8)),
+        11 => F::tune_request(),
+        12 => F::system_exclusive_end(),
+        13 => F::timing_clock(),
+        14 => F::start(),
+        15 => F::r#continue(),
+        16 => F::stop(),
+        17 => F::active_sensing(),
+        18 => F::system_reset(),
+        20 => F::channel_message(ty(a[0]), Channel::new(a[1] as u8), U7::new(a[2] as u8), U7::new(a[3] as u8)),
+        21 => F::system_common_message(ty(a[0]), U7::new(a[1] as u8), U7::new(a[2] as u8)),
+        22 => F::system_real_time_message(ty(a[0])),
+        _ => panic!("ctor"),
+    }
+}
+
+fn build_shorthand(ctor: i64, a: &[i64]) -> RawShortMessage {
+    use helgoboss_midi::test_util as t;
+    let b = |i: usize| a[i] as u8;
+    match ctor {
+        30 => t::note_on(b(0), b(1), b(2)),
+        31 => t::note_off(b(0), b(1), b(2)),
+        32 => t::control_change(b(0), b(1), b(2)),
+        33 => t::program_change(b(0), b(1)),
+        34 => t::polyphonic_key_pressure(b(0), b(1), b(2)),
+        35 => t::channel_pressure(b(0), b(1)),
+        36 => t::pitch_bend_change(b(0), a[1] as u16),
+        37 => t::system_exclusive_start(),
+        38 => t::time_code_quarter_frame(frame_of([a[0], a[1], a[2]])),
+        39 => t::song_position_pointer(a[0] as u16),
+        40 => t::song_select(b(0)),
+        41 => t::tune_request(),
+        42 => t::system_exclusive_end(),
+        43 => t::timing_clock(),
+        44 => t::start(),
+        45 => t::r#continue(),
+        46 => t::stop(),
+        47 => t::active_sensing(),
+        48 => t::system_reset(),
+        49 => t::short(b(0), b(1), b(2)),
+        _ => panic!("shorthand"),
+    }
+}
+
+/// Row = [ctor, impl, a1, a2, a3, a4, pan, al, result...]
+pub fn factory_row(ctor: i64, imp: i64, a: [i64; 4]) -> Vec<i64> {
+    let mut row = vec![ctor, imp, a[0], a[1], a[2], a[3]];
+    let mut acc = Acc { allocs: 0 };
+    match ctor {
+        0..=22 => {
+            if imp == 0 {
+                let (m, al) = guarded(|| build::<RawShortMessage>(ctor, &a));
+                row.extend_from_slice(&[m.is_none() as i64, al as i64]);
+                if let Some(m) = m {
+                    let v = obs(&mut acc, &m);
+                    row.extend_from_slice(&v);
+                    row.push(acc.allocs as i64);
+                }
+            } else {
+                let (m, al) = guarded(|| build::<StructuredShortMessage>(ctor, &a));
+                row.extend_from_slice(&[m.is_none() as i64, al as i64]);
+                if let Some(m) = m {
+                    let v = obs(&mut acc, &m);
+                    row.extend_from_slice(&v);
+                    row.push(acc.allocs as i64);
+                }
+            }
+        }
+        30..=49 => {
+            let (m, al) = guarded(|| build_shorthand(ctor, &a));
+            row.extend_from_slice(&[m.is_none() as i64, al as i64]);
+            if let Some(m) = m {
+                let v = obs(&mut acc, &m);
+                row.extend_from_slice(&v);
+                row.push(acc.allocs as i64);
+            }
+        }
+        50..=55 => {
+            use helgoboss_midi::test_util as t;
+            let (r, al) = guarded(|| match ctor {
+                50 => t::u4(a[0] as u8).get() as i64,
+                51 => t::u7(a[0] as u8).get() as i64,
+                52 => t::u14(a[0] as u16).get() as i64,
+                53 => t::channel(a[0] as u8).get() as i64,
+                54 => t::key_number(a[0] as u8).get() as i64,
+                _ => t::controller_number(a[0] as u8).get() as i64,
+            });
+            row.extend_from_slice(&[r.is_none() as i64, al as i64]);
+            if let Some(v) = r {
+                row.push(v);
+            }
+        }
+        56 => {
+            let (r, al) = guarded(|| test_util::control_change_14_bit(a[0] as u8, a[1] as u8, a[2] as u16));
+            row.extend_from_slice(&[r.is_none() as i64, al as i64]);
+            if let Some(m) = r {
+                for x in cc14_report(&m).as_array().unwrap() {
+                    row.push(x.as_i64().unwrap());
+                }
+            }
+        }
+        57..=60 => {
+            let (r, al) = guarded(|| match ctor {
+                57 => test_util::nrpn(a[0] as u8, a[1] as u16, a[2] as u8),
+                58 => test_util::nrpn_14_bit(a[0] as u8, a[1] as u16, a[2] as u16),
+                59 => test_util::rpn(a[0] as u8, a[1] as u16, a[2] as u8),
+                _ => test_util::rpn_14_bit(a[0] as u8, a[1] as u16, a[2] as u16),
+            });
+            row.extend_from_slice(&[r.is_none() as i64, al as i64]);
+            if let Some(m) = r {
+                for x in pn_report(&m).as_array().unwrap() {
+                    row.push(x.as_i64().unwrap());
+                }
+            }
+        }
+        _ => panic!("ctor id"),
+    }
+    row
+}
+
+const TYPES: [i64; 23] = [
+    128, 144, 160, 176, 192, 208, 224, 240, 241, 242, 243, 244, 245, 246, 247, 248, 249, 250, 251, 252, 253, 254, 255,
+];
+
+pub fn table_factory(dir: &str, tier: &str, seed: u64, per: usize) -> (usize, u64) {
+    let mut w = ChunkWriter::new(dir, per);
+    let full = tier == "thorough";
+    let d: Vec<i64> = if full { (0..128).collect() } else { BOUNDARY.iter().map(|&x| x as i64).collect() };
+    let d14: Vec<i64> = if full {
+        (0..16384).collect()
+    } else {
+        vec![0, 1, 127, 128, 129, 200, 255, 256, 8191, 8192, 8320, 16255, 16256, 16382, 16383]
+    };
+    let mut r = Lcg(seed.wrapping_mul(31337).wrapping_add(5));
+    for imp in 0..2 {
+        for ctor in [0, 1, 2, 4] {
+            for ch in 0..16 {
+                for &a in &d {
+                    for &b in &d {
+                        w.push(&factory_row(ctor, imp, [ch, a, b, 0]));
+                    }
+                }
+            }
+        }
+        for ctor in [3, 5] {
+            for ch in 0..16 {
+                for a in 0..128 {
+                    w.push(&factory_row(ctor, imp, [ch, a, 0, 0]));
+                }
+            }
+        }
+        for ch in 0..16 {
+            for &v in &d14 {
+                w.push(&factory_row(6, imp, [ch, v, 0, 0]));
+            }
+        }
+        for k in 0..7 {
+            for a in 0..16 {
+                w.push(&factory_row(8, imp, [k, a, 0, 0]));
+            }
+        }
+        for a in 0..2 {
+            for t in 0..4 {
+                w.push(&factory_row(8, imp, [7, a, t, 0]));
+            }
+        }
+        for &v in &d14 {
+            w.push(&factory_row(9, imp, [v, 0, 0, 0]));
+        }
+        for a in 0..128 {
+            w.push(&factory_row(10, imp, [a, 0, 0, 0]));
+        }
+        for ctor in [7, 11, 12, 13, 14, 15, 16, 17, 18] {
+            w.push(&factory_row(ctor, imp, [0, 0, 0, 0]));
+        }
+        // the three generic constructors x all 23 types
+        for &t in TYPES.iter() {
+            for ch in 0..16 {
+                for &a in &[0i64, 1, 6, 64, 120, 127] {
+                    for &b in &[0i64, 1, 127] {
+                        w.push(&factory_row(20, imp, [t, ch, a, b]));
+                    }
+                }
+            }
+            for &a in &d {
+                for &b in &[0i64, 1, 64, 127] {
+                    w.push(&factory_row(21, imp, [t, a, b, 0]));
+                }
+            }
+            w.push(&factory_row(22, imp, [t, 0, 0, 0]));
+        }
+        for _ in 0..(if full { 200000 } else { 20000 }) {
+            let ctor = [0, 1, 2, 4, 6, 9, 20, 21][r.below(8) as usize];
+            let a = match ctor {
+                6 => [r.below(16) as i64, r.below(16384) as i64, 0, 0],
+                9 => [r.below(16384) as i64, 0, 0, 0],
+                20 => [TYPES[r.below(23) as usize], r.below(16) as i64, r.below(128) as i64, r.below(128) as i64],
+                21 => [TYPES[r.below(23) as usize], r.below(128) as i64, r.below(128) as i64, 0],
+                _ => [r.below(16) as i64, r.below(128) as i64, r.below(128) as i64, 0],
+            };
+            w.push(&factory_row(ctor, imp, a));
+        }
+    }
+    // test_util shorthands with primitive arguments, including out-of-range ones
+    let prim: Vec<i64> = vec![0, 1, 15, 16, 17, 64, 127, 128, 129, 200, 255];
+    for ctor in [30, 31, 32, 34] {
+        for &c in &prim {
+            for &a in &prim {
+                for &b in &prim {
+                    w.push(&factory_row(ctor, 0, [c, a, b, 0]));
+                }
+            }
+        }
+    }
+    for ctor in [33, 35] {
+        for &c in &prim {
+            for a in 0..256 {
+                w.push(&factory_row(ctor, 0, [c, a, 0, 0]));
+            }
+        }
+    }
+    let prim16: Vec<i64> = vec![0, 1, 127, 128, 200, 8192, 16383, 16384, 16385, 32768, 65535];
+    for &c in &prim {
+        for &v in &prim16 {
+            w.push(&factory_row(36, 0, [c, v, 0, 0]));
+        }
+    }
+    for &v in &prim16 {
+        w.push(&factory_row(39, 0, [v, 0, 0, 0]));
+    }
+    for v in 0..256 {
+        w.push(&factory_row(40, 0, [v, 0, 0, 0]));
+        for ctor in [50, 51, 53, 54, 55] {
+            w.push(&factory_row(ctor, 0, [v, 0, 0, 0]));
+        }
+    }
+    for v in (0..65536).step_by(if full { 1 } else { 97 }).chain(16380..16390) {
+        w.push(&factory_row(52, 0, [v, 0, 0, 0]));
+    }
+    for k in 0..7 {
+        w.push(&factory_row(38, 0, [k, 9, 0, 0]));
+    }
+    w.push(&factory_row(38, 0, [7, 1, 3, 0]));
+    for ctor in [37, 41, 42, 43, 44, 45, 46, 47, 48] {
+        w.push(&factory_row(ctor, 0, [0, 0, 0, 0]));
+    }
+    for s in 0..256 {
+        for &a in &prim {
+            for &b in &[0i64, 127, 128] {
+                w.push(&factory_row(49, 0, [s, a, b, 0]));
+            }
+        }
+    }
+    for &c in &prim {
+        for cn in [0i64, 1, 31, 32, 33, 63, 64, 127, 128, 255] {
+            for &v in &prim16 {
+                w.push(&factory_row(56, 0, [c, cn, v, 0]));
+            }
+        }
+        for &n in &prim16 {
+            for &v in &prim {
+                w.push(&factory_row(57, 0, [c, n, v, 0]));
+                w.push(&factory_row(59, 0, [c, n, v, 0]));
+            }
+            for &v in &prim16 {
+                w.push(&factory_row(58, 0, [c, n, v, 0]));
+                w.push(&factory_row(60, 0, [c, n, v, 0]));
+            }
+        }
+    }
+    w.finish()
+}
+
+/// Row = [ctor, ch, num, val, ord, fac, pan, al, channel, number, value, is14, isreg, dt,
+///        slot1(3), slot2(3), slot3(3), slot4(3), array_conversion_equals_msb_first]
+/// (accessor order: channel, number, value, is_registered, is_14_bit, data_type)
+pub fn pnmsg_row(ctor: i64, ch: i64, num: i64, val: i64, ord: i64, fac: i64) -> Vec<i64> {
+    let mut row = vec![ctor, ch, num, val, ord, fac];
+    let reg = (ctor >= 4) as i64;
+    let (b14, dt) = match ctor % 4 {
+        0 => (0, 0),
+        1 => (1, 0),
+        2 => (0, 2),
+        _ => (0, 1),
+    };
+    let msg = [ch, num, val, reg, b14, dt];
+    let (r, al) = guarded(|| {
+        let m = build_pn(&msg);
+        let acc = [
+            m.channel().get() as i64,
+            m.number().get() as i64,
+            m.value().get() as i64,
+            m.is_registered() as i64,
+            m.is_14_bit() as i64,
+            match m.data_type() {
+                DataType::DataEntry => 0,
+                DataType::DataIncrement => 1,
+                DataType::DataDecrement => 2,
+            },
+        ];
+        let order = if ord == 0 { DataEntryByteOrder::MsbFirst } else { DataEntryByteOrder::LsbFirst };
+        let enc = |x: &(u8, U7, U7)| [x.0 as i64, x.1.get() as i64, x.2.get() as i64];
+        let (slots, arr_eq) = if fac == 0 {
+            let a: [Option<RawShortMessage>; 4] = m.to_short_messages(order);
+            let b: [Option<RawShortMessage>; 4] = m.into();
+            let c: [Option<RawShortMessage>; 4] = m.to_short_messages(DataEntryByteOrder::MsbFirst);
+            (a.map(|x| x.map(|y| enc(&y.to_bytes())).unwrap_or([-1, -1, -1])), (b == c) as i64)
+        } else {
+            let a: [Option<StructuredShortMessage>; 4] = m.to_short_messages(order);
+            let b: [Option<StructuredShortMessage>; 4] = m.into();
+            let c: [Option<StructuredShortMessage>; 4] = m.to_short_messages(DataEntryByteOrder::MsbFirst);
+            (a.map(|x| x.map(|y| enc(&y.to_bytes())).unwrap_or([-1, -1, -1])), (b == c) as i64)
+        };
+        (acc, slots, arr_eq)
+    });
+    row.extend_from_slice(&[r.is_none() as i64, al as i64]);
+    if let Some((acc, slots, arr_eq)) = r {
+        row.extend_from_slice(&acc);
+        for s in slots.iter() {
+            row.extend_from_slice(s);
+        }
+        row.push(arr_eq);
+    }
+    row
+}
+
+pub fn table_pnmsg(dir: &str, tier: &str, seed: u64, per: usize) -> (usize, u64) {
+    let mut w = ChunkWriter::new(dir, per);
+    let full = tier == "thorough";
+    let b7: Vec<i64> = vec![0, 1, 63, 64, 126, 127];
+    let b14: Vec<i64> = vec![0, 1, 127, 128, 129, 255, 256, 8191, 8192, 16255, 16256, 16382, 16383];
+    let mut r = Lcg(seed.wrapping_mul(104729).wrapping_add(11));
+    let vals = |ctor: i64, all: bool| -> Vec<i64> {
+        if ctor % 4 == 1 {
+            if all { (0..16384).collect() } else { b14.clone() }
+        } else if all { (0..128).collect() } else { b7.clone() }
+    };
+    for ctor in 0..8 {
+        for ord in 0..2 {
+            for fac in 0..2 {
+                // all numbers x boundary values (x channel sample)
+                let chans: Vec<i64> = if full { vec![0, 5, 15] } else { vec![r.below(16) as i64] };
+                for &ch in &chans {
+                    let step = if full { 1 } else { 3 };
+                    for num in (r.below(step as u64) as i64..16384).step_by(step) {
+                        for &v in vals(ctor, false).iter().take(if full { 13 } else { 4 }) {
+                            w.push(&pnmsg_row(ctor, ch, num, v, ord, fac));
+                        }
+                    }
+                }
+                // all values x boundary numbers
+                for &num in &b14 {
+                    let all = vals(ctor, true);
+                    let step = if full || all.len() <= 128 { 1 } else { 5 };
+                    for &v in all.iter().step_by(step) {
+                        w.push(&pnmsg_row(ctor, r.below(16) as i64, num, v, ord, fac));
+                    }
+                }
+                // all channels
+                for ch in 0..16 {
+                    for &num in &[0i64, 127, 128, 16383] {
+                        for &v in vals(ctor, false).iter() {
+                            w.push(&pnmsg_row(ctor, ch, num, v, ord, fac));
+                        }
+                    }
+                }
+            }
+        }
+    }
+    // seeded random points of the full product
+    for _ in 0..(if full { 1_000_000 } else { 60000 }) {
+        let ctor = r.below(8) as i64;
+        let v = if ctor % 4 == 1 { r.below(16384) } else { r.below(128) } as i64;
+        w.push(&pnmsg_row(ctor, r.below(16) as i64, r.below(16384) as i64, v, r.below(2) as i64, r.below(2) as i64));
+    }
+    w.finish()
+}
+
+pub fn row_from_inputs(name: &str, a: &[i64]) -> Vec<i64> {
+    match name {
+        "factory" => factory_row(a[0], a[1], [a[2], a[3], a[4], a[5]]),
+        "pnmsg" => pnmsg_row(a[0], a[1], a[2], a[3], a[4], a[5]),
+        _ => panic!("unknown table {name}"),
+    }
+}
+
+pub fn table(name: &str, dir: &str, tier: &str, seed: u64, per: usize) -> (usize, u64) {
+    match name {
+        "factory" => table_factory(dir, tier, seed, per),
+        "pnmsg" => table_pnmsg(dir, tier, seed, per),
+        _ => panic!("unknown table {name}"),
+    }
 }
